@@ -38,6 +38,16 @@ CLAIMED["C14"] = dict(cat="proof", ref="DESIGN.md §5 C14, §12",
         "and with hashlib on thousands of texts.",
    note="hash functions themselves (hashlib) and str.encode are trusted; shake_* (no fixed length) outside the property; model==implementation observed by correspondence",
    tech="Lean 4 proof (BitVec linearity, decide +kernel on the 256-entry table) + bit-serial reference run against the implementation")
+CLAIMED["C16"] = dict(cat="proof", ref="DESIGN.md §5 C16, §12",
+   text="Lean theorems over the whole domains: c16_date (every ordinal 1..3652059), c16_time_millis/micros (every µs of the day), "
+        "c16_timestamp_millis/micros (every instant of the datetime range, floor before the epoch), c16_twos_complement, c16_bytes_decimal, "
+        "c16_fixed_decimal (the mask/bits_req algorithm = sign-extended two's complement of exactly the unscaled integer, incl. negative zero and the "
+        "most negative value), c16_decimal_never_other_number (rejections). Implementation compared with independent integer arithmetic on boundary "
+        "and random values of every logical type, and with the model through the full codec.",
+   note="Python's datetime/decimal/uuid objects are abstracted to integers (ordinal, µs, as_tuple, 128-bit int): toordinal/fromordinal, timedelta "
+        "normalisation, time.mktime under TZ=UTC, Context.create_decimal/scaleb, uuid.UUID are trusted; float division int(a/b) modelled as integer "
+        "division (validated at the carry points by the run); model==implementation observed by correspondence",
+   tech="Lean 4 proof (omega over the full ranges; bit-level lemmas for two's complement) + correspondence through logical schemas")
 PENDING = {}
 
 def main():
